@@ -55,6 +55,12 @@
 ;; spec NVHeaderBytes (Int Int Int Int Slice_Int) Str
 (declare-fun NVHeaderBytes (Int Int Int Int Slice_Int) Str)
 (declare-fun VerifiedSeed (Iface Int Str Str Str) Bool)
+; C11 hypotheses about the peer's environment: a context that is not cancelled while the message is handled, and the
+; verdict of the consumer's proposal validation as a function of the proposal
+;; spec StaysLive (Iface) Bool
+(declare-fun StaysLive (Iface) Bool)
+;; spec Validates (Iface Int Str Iface Str Iface) Bool
+(declare-fun Validates (Iface Int Str Iface Str Iface) Bool)
 ;; spec Commits (Iface Int Iface Str) Bool
 (declare-fun Commits (Iface Int Iface Str) Bool)
 ;; spec CommitteeOf (Iface Iface Int Int) Slice_S_interfaces_CommitteeMember : []interfaces.CommitteeMember
